@@ -142,6 +142,18 @@ func c13Payloads() []c13Payload {
 			return &dtypes.MsgUpdateSubDistributorDestinationShareParam{Authority: a, SubDistributorName: "fees", DestinationName: sh.dest, Share: sdk.MustNewDecFromStr(sh.share)}
 		}})
 	}
+	// two sub-distributors with two named shares each, and partial updates aimed at the second
+	// sub-distributor / the second share (replacing the wrong one of two similar objects shows here)
+	twoByTwo := c13DistParams().SubDistributors
+	twoByTwo[0].Destinations.Shares = append(twoByTwo[0].Destinations.Shares, &dtypes.DestinationShare{Name: "ops", Share: sdk.MustNewDecFromStr("0.1"), Destination: dAcc(aMgeb)})
+	twoByTwo[1].Destinations.Shares = append(twoByTwo[1].Destinations.Shares, &dtypes.DestinationShare{Name: "eco", Share: sdk.MustNewDecFromStr("0.1"), Destination: dAcc(aU("U1"))})
+	ps = append(ps, c13Payload{"distr.UpdateParams(two-by-two)", func(a string) sdk.Msg { return &dtypes.MsgUpdateParams{Authority: a, SubDistributors: twoByTwo} }})
+	for _, sh := range []struct{ sub, dest, share string }{{"main", "boost", "0.4"}, {"main", "eco", "0.15"}, {"fees", "ops", "0.05"}, {"main", "dev", "0.2"}, {"main", "dev", "0.95"}} {
+		sh := sh
+		ps = append(ps, c13Payload{fmt.Sprintf("distr.UpdateShare(%s/%s=%s)", sh.sub, sh.dest, sh.share), func(a string) sdk.Msg {
+			return &dtypes.MsgUpdateSubDistributorDestinationShareParam{Authority: a, SubDistributorName: sh.sub, DestinationName: sh.dest, Share: sdk.MustNewDecFromStr(sh.share)}
+		}})
+	}
 	for _, b := range []struct{ sub, burn string }{{"fees", "0.2"}, {"fees", "0.7"}, {"main", "0.8"}, {"main", "0.5"}, {"nosuch", "0.1"}, {"fees", "1"}} {
 		b := b
 		ps = append(ps, c13Payload{fmt.Sprintf("distr.UpdateBurn(%s=%s)", b.sub, b.burn), func(a string) sdk.Msg {
